@@ -76,6 +76,8 @@ static int g_cond_blocked = 0;
 static uint64_t g_clock = 1700000000ULL * 1000000ULL;
 static int g_burst_left = 0;
 static uint64_t g_budget_base = 0;
+static bool g_trace_on = false;
+static std::vector<Switch> g_trace;
 static std::vector<uint64_t> g_pct_points;
 static fatal_fn g_fatal = nullptr;
 
@@ -153,6 +155,7 @@ static SimThread *choose(SimThread *self, bool self_ok) {
 
 static void switch_to(SimThread *self, SimThread *next, int kind) {
   g_stats.switches++;
+  if (g_trace_on && g_trace.size() < 200000) g_trace.push_back({g_stats.steps, kind, self->tid, next->tid});
   if (kind == Y_ATOMIC) g_stats.atomic_switches++;
   hmix(0xABCD, (uint64_t)next->tid);
   wake(next);
@@ -172,6 +175,7 @@ static void block(SimThread *self) {
   SimThread *next = pick_or_drainer(self);
   if (!next) fatal("deadlock", "unfinished threads exist and none is runnable");
   g_stats.switches++;
+  if (g_trace_on && g_trace.size() < 200000) g_trace.push_back({g_stats.steps, -(int)self->st, self->tid, next->tid});
   hmix(0xB10C, (uint64_t)next->tid);
   wake(next);
   park(self);
@@ -240,6 +244,8 @@ static void sim_mutex_release(SimThread *self, pthread_mutex_t *m) {
 } // namespace
 
 void set_fatal_handler(fatal_fn f) { g_fatal = f; }
+void trace_enable(bool on) { g_trace_on = on; g_trace.clear(); }
+const std::vector<Switch> &trace() { return g_trace; }
 
 std::string dump_threads() {
   std::string s;
